@@ -34,6 +34,7 @@ GInit == Init /\ hist = <<>> /\ fin = FALSE /\ noise = 0
 
 GNext ==
   \/ \E id \in IDS, f \in BOOLEAN : Syn(id, f) /\ Rec("syn", id, 0, f, AllowedSyn(id), WhySyn(id))
+  \/ \E id \in IDS, f \in BOOLEAN : SynBad(id, f) /\ Rec("synbad", id, 0, f, AllowedSynBad(id), WhySynBad(id))
   \/ \E id \in IDS, len \in DSIZES, f \in BOOLEAN : Data(id, len, f) /\ Rec("data", id, len, f, AllowedData(id, len), WhyData(id, len))
   \/ \E id \in IDS \cup {0}, d \in WUDS : Wu(id, d) /\ Rec("wu", id, d, FALSE, AllowedWu(id, d), WhyWu(id, d))
   \/ \E id \in IDS : RstC(id) /\ Rec("rst", id, 0, FALSE, AllowedRst(id), WhyRst(id))
